@@ -261,7 +261,7 @@ atexit.register(_shutdown)
 TIMEOUT_FLOOR = 300.0     # seconds; a pipeline run on these fragments takes 0.3-3 s on an idle core
 
 
-def pipeline(hashseed, pdb_text, args, timeout=None):
+def pipeline(hashseed, pdb_text, args, timeout=None, _retry=False):
     """Returns the server's answer with 'elapsed', or {'timeout': True, 'elapsed': ...} when no answer came in time (the
     server is then killed; a new one is started on demand)."""
     import select
@@ -284,7 +284,34 @@ def pipeline(hashseed, pdb_text, args, timeout=None):
         raise HarnessError('pipeline server (hash seed %s) died' % hashseed)
     res = json.loads(line)
     res['elapsed'] = time.time() - t0
+    _REQUESTS[hashseed] = _REQUESTS.get(hashseed, 0) + 1
+    if not res.get('ok') and not _retry and _REQUESTS[hashseed] > 1:
+        # The servers share the loaded force fields and mappings between requests (that is what makes them fast); the
+        # real program loads them anew for every run.  A crash that does not happen again in a new process on the same
+        # request comes from that sharing, not from the presentation: only the answer of the new process counts.
+        _restart(hashseed)
+        again = pipeline(hashseed, pdb_text, args, timeout=timeout, _retry=True)
+        again['retried_on_new_server'] = True
+        again['first_error'] = res.get('error')
+        return again
+    if _REQUESTS[hashseed] >= MAX_REQUESTS_PER_SERVER:
+        _restart(hashseed)
     return res
+
+
+MAX_REQUESTS_PER_SERVER = 60
+_REQUESTS = {}
+
+
+def _restart(hashseed):
+    srv = _SERVERS.pop(hashseed, None)
+    _REQUESTS[hashseed] = 0
+    if srv is not None:
+        try:
+            srv.stdin.close()
+            srv.terminate()
+        except Exception:  # pylint: disable=broad-except
+            pass
 
 
 # ---------------------------------------------------------------------------
@@ -458,7 +485,8 @@ def run(case):
             pass
     if res_a.get('ok') != res_b.get('ok'):
         raise Violation('crash-in-one-presentation', 'pipeline crashed in one presentation only: %r / %r' % (
-            res_a.get('error'), res_b.get('error')))
+            res_a.get('error'), res_b.get('error')),
+            detail=(res_a.get('traceback') or '') + (res_b.get('traceback') or ''))
     classes = ['source:%s' % src['name'].split('/')[-2 if '/' in src['name'] else 0][:20], 'ff:' + opt['ff']]
     if not res_a.get('ok'):
         if res_a['error'].split(':')[0] != res_b['error'].split(':')[0]:
@@ -491,6 +519,8 @@ def run(case):
         classes.append('rigid-motion')
     if transform['hashseed'] != 0:
         classes.append('other-hashseed')
+    if res_a.get('retried_on_new_server') or res_b.get('retried_on_new_server'):
+        classes.append('observation:crash-not-repeated-in-a-new-process:%s' % (res_a.get('first_error') or res_b.get('first_error') or '')[:60])
     if opt['elastic'] or opt['ff'].startswith('elnedyn'):
         classes.append('elastic')
     if opt['ss'] == 'dssp':
